@@ -241,7 +241,7 @@ func oddViews(f string, report func(where, msg string)) {
 
 func checkC02(c *harness.Check) {
 	mustAnchors(c)
-	c.Rule = "every (node, legal move) of the C01 spaces (BFS closures, chains arise because every node was produced by the implementation's own Move; plus systematic families): successor placement/rights/e.p. vs reference Make; square lookup vs per-piece/per-colour/occupancy/rotated views; IsAttacked and IsAttackedBy (every single kind of piece, KingQueen) for 2x64 squares and IsChecked vs reference ray walk; FEN of successor; parent value unchanged. distinct_nontrivial = distinct (move kind, rights-before, rights-after, e.p.-set) classes"
+	c.Rule = "every (node, legal move) of the C01 spaces (BFS closures, chains arise because every node was produced by the implementation's own Move; plus systematic families, incl. positions with all eight squares of a long diagonal occupied): successor placement/rights/e.p. vs reference Make; square lookup vs per-piece/per-colour/occupancy/rotated views; IsAttacked and IsAttackedBy (every single kind of piece, KingQueen) for 2x64 squares and IsChecked vs reference ray walk; FEN of successor; parent value unchanged. distinct_nontrivial = distinct (move kind, rights-before, rights-after, e.p.-set) classes"
 	edge := func(n *Node, m board.Move, rm ref.Move, succ *Node) {
 		c.Evaluations.Add(1)
 		before := *n.Pos
@@ -266,6 +266,7 @@ func checkC02(c *harness.Check) {
 	WalkFlat(c, corpus.CornerFamily, nil, edge)
 	WalkFlat(c, corpus.CastlingUnderAttack, nil, edge)
 	WalkFlat(c, corpus.PromotionFamily, nil, edge)
+	WalkFlat(c, corpus.FullDiagonalFamily, rootViews, edge)
 	WalkFlat(c, func(e func(*ref.Pos)) { corpus.EnPassantFamily(c.Thorough(), e) }, nil, edge)
 	if c.Thorough() {
 		WalkFlat(c, corpus.KXvK, nil, edge)
